@@ -121,7 +121,7 @@ def _slim(d):
 def analysis_table(ix, c, mname, x):
     """paths of the analysis method (or constructor) -> [(shared assumptions after the method, eqs, coerced?)]"""
     fn = c.methods[mname]
-    emu = E.Emu(ix, c, code_names=(), inline=lambda owner, name: owner is c and not name.startswith('generate_'), unknown_loops='01', max_states=400)
+    emu = E.Emu(ix, c, code_names=(), inline=lambda owner, name: owner is c and not name.startswith('generate_'), unknown_loops='01', max_states=150)
     args = {}
     is_init = mname == '__init__' and x in [a.arg for a in fn.args.args]
     if is_init:
@@ -154,7 +154,7 @@ def codegen_paths(ix, c, xs):
     own = c.methods
     entry = 'generate_evaluation_code' if 'generate_evaluation_code' in own else None
     if entry:
-        emu = E.Emu(ix, c, inline=lambda owner, name: owner is c and name not in RESULT_METHODS, unknown_loops='01', max_states=1000)
+        emu = E.Emu(ix, c, inline=lambda owner, name: owner is c and name not in RESULT_METHODS, unknown_loops='01', max_states=700)
         for st, v in emu.run(c, own[entry]):
             delegated = any(ev[0] == 'call' and ev[2] == entry and isinstance(ev[1], E.U) and not ev[1].path.startswith('self.') for ev in st.events)
             texts = list(_texts(st))
@@ -169,7 +169,7 @@ def codegen_paths(ix, c, xs):
                     out[x].append((_slim(st.entry), dict(st.eqs), ('a statement emitted by %s besides the evaluation it delegates to the base class' if delegated
                                                                    else 'the statements emitted by %s') % entry, n, sample))
     if 'calculate_result_code' in own:
-        emu = E.Emu(ix, c, inline=lambda owner, name: owner is c, unknown_loops='01', max_states=1000)
+        emu = E.Emu(ix, c, inline=lambda owner, name: owner is c, unknown_loops='01', max_states=300)
         for st, v in emu.run(c, own['calculate_result_code']):
             if isinstance(v, str):
                 for x in xs:
@@ -275,7 +275,7 @@ class _OneClassIx:
         return (self.c, self.c.methods[n]) if n in self.c.methods else None
 
 
-def rule_paste(ctx, floor=4, modules=('ExprNodes',)):
+def rule_paste(ctx, floor=3, modules=('ExprNodes',)):
     ix = ctx.index
     r = Rule('C20-PASTE', 'an operand whose result text the code generator of a node class pastes into emitted statements besides the evaluation proper (or twice into the result '
              'expression) has been made simple (coerce_to_simple/coerce_to_temp) by the class\'s analysis method or constructor under every valuation of the shared flags that admits the paste', floor)
@@ -290,6 +290,11 @@ def rule_paste(ctx, floor=4, modules=('ExprNodes',)):
             if not sub or not sub[1]:
                 continue
             nclasses += 1
+            # cheap syntactic prefilter: no own method asks anything but `self` for its C result text -> nothing can be pasted
+            if not any(isinstance(n, ast.Call) and isinstance(n.func, ast.Attribute) and n.func.attr == 'result'
+                       and not (isinstance(n.func.value, ast.Name) and n.func.value.id == 'self')
+                       for fn in c.methods.values() for n in ast.walk(fn)):
+                continue
             try:
                 demand = codegen_paths(ix, c, sub[1])
             except E.Unmodelled as e:
@@ -516,7 +521,7 @@ class _Order:
                         return 'DESC', src, True
                 return 'TOP', None, False
             return 'TOP', None, False
-        if isinstance(e, ast.ListComp) and len(e.generators) == 1 and not e.generators[0].is_async:
+        if isinstance(e, (ast.ListComp, ast.GeneratorExp)) and len(e.generators) == 1 and not e.generators[0].is_async:
             g = e.generators[0]
             st, src, tg = self.order_of(g.iter, state)
             if st == 'TOP':
@@ -613,7 +618,7 @@ class _Order:
                 d = self.get(before, 'dictof', val.value.id)
                 if not d[3]:
                     s.add(('elem', t.id, d[2], 'lookup'))
-            elif isinstance(val, (ast.List, ast.ListComp, ast.BinOp, ast.Subscript, ast.Attribute)) or (isinstance(val, ast.Call) and isinstance(val.func, ast.Name)
+            elif isinstance(val, (ast.List, ast.ListComp, ast.GeneratorExp, ast.BinOp, ast.Subscript, ast.Attribute)) or (isinstance(val, ast.Call) and isinstance(val.func, ast.Name)
                                                                                           and val.func.id in ('list', 'tuple', 'sorted', 'reversed')) \
                     or (isinstance(val, ast.Name) and self.get(before, 'ord', val.id)):
                 st, src, tg = self.order_of(val, before)
@@ -764,7 +769,7 @@ def rewrite(self, node, declared, passed):
 '''
 
 
-def rule_stack(ctx, floor=4, modules=('ExprNodes', 'Nodes', 'Optimize', 'ParseTreeTransforms', 'MatchCaseNodes', 'UtilNodes', 'Builtin', 'FusedNode')):
+def rule_stack(ctx, floor=9, modules=('ExprNodes', 'Nodes', 'Optimize', 'ParseTreeTransforms', 'MatchCaseNodes', 'UtilNodes', 'Builtin', 'FusedNode')):
     ix = ctx.index
     r = Rule('C20-STACK', 'temporaries wrapped around a node in a loop (EvalWithTempExprNode/LetNode) are evaluated outermost first: the list they come from is in the source order of the '
              'operands they carry (filled while iterating the operands, or re-sorted by a source index) and is wrapped back to front', floor)
@@ -810,4 +815,62 @@ def rule_stack(ctx, floor=4, modules=('ExprNodes', 'Nodes', 'Optimize', 'ParseTr
     pc = ast.parse(STACK_POSITIVE).body[0]
     v = _Order(pc).run()
     r.positive_control(any(st == 'PERM' for vs in v.values() for st, src in vs), 'temporaries collected in declaration order wrapped without sorting')
+    return r
+
+
+# ================================================================================================================ C20-HOIST   # pending finding
+# NOT registered in props/C20.run(): on the unmodified tree it reports ExprNodes.PrimaryCmpNode.analyse_types (a genuine defect, see
+# /tmp/strengthen/G5/FINDING_1.md: `f() < g() < h()` with cdef noexcept functions evaluates g, f, h).  Register it once the defect is fixed/recorded.
+def hoisted_pairs(fn, first='operand1', second='operand2'):
+    """exit states of an analysis method in which the later operand has been forced into a temporary/simple result and the earlier one has not"""
+    def is_simple_coercion(v):
+        n = v
+        while isinstance(n, ast.Call) and isinstance(n.func, ast.Attribute):
+            if n.func.attr in SIMPLE_COERCIONS:
+                return True
+            n = n.func.value
+        return False
+
+    def tr(node, state):
+        s = set(state)
+        if isinstance(node, ast.Assign) and len(node.targets) == 1 and isinstance(node.targets[0], ast.Attribute) \
+                and isinstance(node.targets[0].value, ast.Name) and node.targets[0].value.id == 'self' and node.targets[0].attr in (first, second):
+            if is_simple_coercion(node.value):
+                s.add(('simple', node.targets[0].attr))
+                s.add(('line', node.targets[0].attr, node.lineno))
+        return frozenset(s)
+    o = pyflow.Flow(tr).run(fn)
+    bad = []
+    for st in o.normal | o.returns:
+        if ('simple', second) in st and ('simple', first) not in st:
+            bad += [f[2] for f in st if isinstance(f, tuple) and f[0] == 'line' and f[1] == second]
+    return sorted(set(bad))
+
+
+def rule_hoist(ctx, floor=2):   # pending finding
+    """binary node classes (subexprs begin with operand1, operand2; both operands share the common operand type): an analysis method that forces operand2 into a
+    temporary (its evaluation becomes a statement emitted before the node's result expression) must do the same for operand1 on that path, otherwise an operand1 whose
+    C result is an inline expression (call of a cdef noexcept function) is evaluated AFTER operand2."""
+    ix = ctx.index
+    r = Rule('C20-HOIST', 'binary expression nodes: the right operand is moved into a temporary only together with the left one (otherwise an inline left operand is evaluated after it)', floor)
+    m = ix.mod('ExprNodes')
+    for c in sorted(m.classes.values(), key=lambda c: c.name):
+        sub = ix.class_list_attr(c, 'subexprs')
+        if not sub or not sub[1]:
+            sub = ix.class_list_attr(c, 'child_attrs')      # PrimaryCmpNode evaluates its operands itself and lists them as child_attrs
+        if not sub or not sub[1] or list(sub[1][:2]) != ['operand1', 'operand2']:
+            continue
+        for mname, fn in sorted(c.methods.items()):
+            if mname.startswith('generate_'):
+                continue
+            if not any(isinstance(n, ast.Attribute) and n.attr in SIMPLE_COERCIONS for n in ast.walk(fn)):
+                continue
+            key = '%s.%s:operand2-before-operand1' % (c.qual, mname)
+            r.inst(key, sample=key)
+            for line in hoisted_pairs(fn):
+                r.violate(key, m.rel, line, '%s.%s makes operand2 simple (coerce_to_simple: a non-simple operand2 is evaluated into a temporary by a statement of its own) on a path on which '
+                          'operand1 stays as it is: an operand1 with an inline C result (e.g. a call of a cdef noexcept function) is then evaluated after operand2 '
+                          '(`f() < g() < h()` runs g, f, h)' % (c.name, mname))
+    pc = ast.parse("def analyse_types(self, env):\n    if self.cascade:\n        self.operand2 = self.operand2.coerce_to_simple(env)\n    return self\n").body[0]
+    r.positive_control(bool(hoisted_pairs(pc)), 'operand2 coerced alone')
     return r
